@@ -219,9 +219,11 @@ func buildGraph(rc resolve.Client, root resolve.VersionKey, s *state) (*resolve.
 				from = ids[rootPackage]
 			} else {
 				f, ok := ids[parent.PackageKey]
-				if !ok {
+				if !ok || g.Nodes[f].Version != parent {
 					// This means the parent is not connected to the
-					// root for some reason. Skip it.
+					// root for some reason, or the requirement comes
+					// from a version of the parent's package that has
+					// since been replaced by another. Skip it.
 					continue
 				}
 				from = f
